@@ -321,3 +321,48 @@ package factory
 //@ loop 2 invariant [state] FInv(f) && !Reg(f).HasHole && forall(n, string, !Reg(f).IC[n]) && Failed == old(Failed) && Refreshed == old(Refreshed) && RanLen == old(RanLen) && CreatedLen == c0 + _done
 //@ loop 2 invariant [created-so-far] forall(k, int, implies(0 <= k && k < _done, Reg(f).L1Dom[names[k]]), names[k])
 //@ loop 2 invariant [trace] forall(a, int, implies(c0 <= a && a < c0 + _done, CreatedAt[a] == names[a - c0]), CreatedAt[a])
+
+// ---- wiring setters (C09): the App hands the factory its registry and configuration before start-up ----------------
+//@ bind (f *defaultFactory) container.Factory.WiredRegistry = f.singletonRegistry
+//@ bind (f *defaultFactory) container.Factory.WiredConfigure = f.configure
+//@ func (*defaultFactory).SetRegistry
+//@ implements container.Factory
+//@ func (*defaultFactory).SetConfigure
+//@ implements container.Factory
+
+// ---- parallel definition scanning (C20, C09) -------------------------------------------------------------------------
+// One goroutine per registered component and processor. Each thread scans exactly its own component (frames of
+// different threads are disjoint because the map range delivers every name once), records a failure on the shared
+// error list, and calls Done exactly once.
+//@ func (*PostProcessorRegistrationDelegate).applyDefinitionRegistryPostProcessors$1
+//@ property C20 C09
+//@ thread wg
+//@ requires [wired] processor != nil && factory != nil
+//@ assigns ScanRegion[name], ScanFailed[tid], wg.Dones
+//@ guarded mu: errs, ScanRecorded[tid]
+//@ lockinv mu: [recorded-errors-are-listed] forall(k, int, implies(k >= ScanBase && ScanRecorded[k], errs != nil))
+//@ ensures [failure-is-recorded] implies(ScanFailed[tid], ScanRecorded[tid])
+//@ ensures [done-exactly-once] wg.Dones == old(wg.Dones) + 1
+//@ ghost after call PostProcessDefinitionRegistry: ScanFailed = store(ScanFailed, tid, err != nil)
+//@ ghost before call Unlock: ScanRecorded = store(ScanRecorded, tid, true)
+
+// Round r: Add(len(components)), one thread per delivered name, Wait; then the error list decides.
+//   [failure-surfaces]: ghost Failed is raised exactly when some scan of the round failed, and then the list is
+//   non-empty (lock invariant), so an error is returned.
+//@ func (*PostProcessorRegistrationDelegate).applyDefinitionRegistryPostProcessors
+//@ property C20 C09
+//@ requires [factory-given] factory != nil
+//@ requires [no-live-threads] Joined <= Forks && forall(k, int, implies(k >= Forks, !ScanRecorded[k] && !ScanFailed[k]))
+//@ assigns Forks, Joined, ScanRegion, ScanFailed, ScanRecorded, ScanBase, Failed, forkargs(name), forkargs(component)
+//@ let f0 = Forks
+//@ ensures [failure-surfaces] implies(result == nil, Failed == old(Failed))
+//@ ensures [no-live-threads] Joined <= Forks && forall(k, int, implies(k >= Forks, !ScanRecorded[k] && !ScanFailed[k]))
+//@ ghost before call Add: ScanBase = Forks
+//@ ghost after call WaitGroup).Wait: Failed = Failed || exists(k, int, ScanBase <= k && k < Forks && ScanFailed[k])
+//@ loop 1 invariant [rounds] wg.Added == wg.Forked && Failed == old(Failed) && Forks >= f0 && Joined <= Forks && (Joined == Forks || Forks == f0) && forall(k, int, implies(k >= Forks, !ScanRecorded[k] && !ScanFailed[k]))
+//@ loop 2 invariant [round] Failed == old(Failed) && f0 <= ScanBase && Joined <= ScanBase && (Joined == ScanBase || ScanBase == f0) && Forks == ScanBase + card(_visited) && wg.Added == wg.Forked + len(components) - card(_visited)
+//@ loop 2 invariant [parent-view] errs == nil && !mu.Held && forall(k, int, implies(k >= ScanBase, !ScanRecorded[k] && !ScanFailed[k]))
+//@ loop 2 invariant [visited-in-map] forall(k, string, implies(_visited[k], in(k, components)))
+//@ loop 2 invariant [one-thread-per-name] forall(k, int, implies(ScanBase <= k && k < Forks, _visited[forkarg(k, name)]))
+//@ loop 2 invariant [names-distinct] forall(a, int, forall(b, int, implies(ScanBase <= a && a < b && b < Forks, forkarg(a, name) != forkarg(b, name))))
+//@ loop 3 invariant [error-kept] err != nil
